@@ -8,7 +8,7 @@ the bottom), `ESC[2K` (erase the cursor's row) and `ESC[1A` (cursor up one row).
 is outside the emulator (`none`).  Every character occupies one cell (wide East-Asian characters
 are not modelled).  `onlcr` is the tty line discipline's `\n → \r\n` output translation.
 
-Renderer: the reset sequence is `ESC[2K ESC[1A` once per `\n` of the previous frame; a frame is
+Renderer: the reset sequence is `ESC[2K ESC[1A` once per `\n` of the previous frame, then `ESC[2K`; a frame is
 written as reset sequence ++ text; when stdout is not a terminal only the final table is written.
 
 Live loop (`render_aggregate`, src/lib.rs:234-263): the downstream operators keep state between
@@ -121,15 +121,25 @@ def countNl : Str → Nat
   | [] => 0
   | c :: cs => (if c = '\n' then 1 else 0) + countNl cs
 
-/-- the renderer's memory: the reset sequence, as its number of repetitions -/
+/-- `ESC[2K` -/
+def eraseOnly : Str := [esc, '[', '2', 'K']
+
+/-- the renderer's memory: `reset_sequence` — empty before the first frame (`none`), afterwards
+`"\x1b[2K\x1b[1A".repeat(n) + "\x1b[2K"` (`some n`; the final erase, of the frame's first line, is
+4c642ce's repair) -/
 structure RState where
-  resetLines : Nat := 0
+  resetLines : Option Nat := none
 deriving Repr, Inhabited
+
+/-- the bytes of `reset_sequence` -/
+def resetBytes : Option Nat → Str
+  | none => []
+  | some n => resetSeq n ++ eraseOnly
 
 /-- one printed frame on a terminal: what is written and the new state
 (`write!(stdout, "{}{}", reset_sequence, output)`) -/
 def renderTty (st : RState) (frame : Str) : Str × RState :=
-  (resetSeq st.resetLines ++ frame, { resetLines := countNl frame })
+  (resetBytes st.resetLines ++ frame, { resetLines := some (countNl frame) })
 
 /-- all bytes written for a sequence of printed frames (the last one is the final table) -/
 def ttyBytes : RState → List Str → Str
